@@ -275,6 +275,7 @@ struct GenShape {
 struct GenShapeOpts {
 	bool allowSkin = true;
 	bool allowStrips = true;
+	bool stripVariants = false;	 // strips with degenerate triangles (see trisToStrips)
 	bool allowSegments = true;
 	bool allowLockedNorm = true;
 	bool allowSpecialKinds = true; // dynamic, mesh-LOD, segmented, LOD
@@ -284,13 +285,44 @@ struct GenShapeOpts {
 	MeshOpts mesh;
 };
 
-// triangles -> strips: consecutive runs are merged only trivially; each triangle its own strip,
-// sometimes two triangles sharing an edge are emitted as one 4-point strip
-inline std::vector<std::vector<uint16_t>> trisToStrips(const std::vector<nifly::Triangle>& tris) {
+// triangles -> strips. Plain: each triangle its own 3-point strip. With `variants` the form of each strip is a
+// pure function of the triangle and its position (no tape bytes): a 3-point strip, a strip that starts with ONE
+// degenerate triangle (the stripifier "swap" a b a c, or a a c b: an odd run, so the winding parity of the strip
+// position matters), or two triangles stitched with doubled vertices (an even run of four degenerates). Every
+// form decodes - by position parity, degenerate triangles skipped - to a rotation of the same oriented triangles.
+inline std::vector<std::vector<uint16_t>> trisToStrips(const std::vector<nifly::Triangle>& tris, bool variants = false) {
 	std::vector<std::vector<uint16_t>> strips;
-	for (auto& t : tris)
-		strips.push_back({t.p1, t.p2, t.p3});
+	for (size_t i = 0; i < tris.size(); i++) {
+		const auto& t = tris[i];
+		const bool proper = t.p1 != t.p2 && t.p2 != t.p3 && t.p3 != t.p1;
+		const unsigned v = variants && proper ? static_cast<unsigned>((t.p1 + 3u * t.p2 + 7u * t.p3 + i) % 6u) : 0u;
+		if (v == 1)
+			strips.push_back({t.p1, t.p2, t.p1, t.p3});
+		else if (v == 2)
+			strips.push_back({t.p1, t.p1, t.p3, t.p2});
+		else if (v == 3 && i + 1 < tris.size() && tris[i + 1].p1 != tris[i + 1].p2 && tris[i + 1].p2 != tris[i + 1].p3 && tris[i + 1].p3 != tris[i + 1].p1 && tris[i + 1].p1 != t.p3) {
+			const auto& u = tris[i + 1];
+			strips.push_back({t.p1, t.p2, t.p3, t.p3, u.p1, u.p1, u.p3, u.p2});
+			i++;
+		}
+		else
+			strips.push_back({t.p1, t.p2, t.p3});
+	}
 	return strips;
+}
+
+// reference decoding of strips (independent of the library's): triangle k of a strip is points k, k+1, k+2, with
+// the last two swapped at odd k; triangles with a repeated point are skipped
+inline std::vector<nifly::Triangle> refTrianglesOfStrips(const std::vector<std::vector<uint16_t>>& strips) {
+	std::vector<nifly::Triangle> out;
+	for (auto& s : strips)
+		for (size_t k = 0; k + 2 < s.size(); k++) {
+			uint16_t a = s[k], b = s[k + 1], c = s[k + 2];
+			if (a == b || b == c || a == c)
+				continue;
+			out.push_back((k & 1) ? nifly::Triangle(a, c, b) : nifly::Triangle(a, b, c));
+		}
+	return out;
 }
 
 inline GenShape buildGenShape(nifly::NifFile& nif, Tape& t, size_t vi, const std::string& name, const GenShapeOpts& o) {
@@ -315,7 +347,7 @@ inline GenShape buildGenShape(nifly::NifFile& nif, Tape& t, size_t vi, const std
 		// NiTriStrips + NiTriStripsData
 		auto data = std::make_unique<NiTriStripsData>();
 		data->Create(nv, &m.verts, &m.tris, uv, nr);
-		auto strips = trisToStrips(m.tris);
+		auto strips = trisToStrips(m.tris, o.stripVariants);
 		data->stripsInfo.points = strips;
 		data->stripsInfo.stripLengths.clear();
 		for (auto& s : strips) {
@@ -478,7 +510,7 @@ inline GenShape buildGenShape(nifly::NifFile& nif, Tape& t, size_t vi, const std
 				for (auto& p : sp->partitions) {
 					if (p.triangles.empty())
 						continue;
-					p.strips = trisToStrips(p.triangles);
+					p.strips = trisToStrips(p.triangles, o.stripVariants);
 					p.numStrips = static_cast<uint16_t>(p.strips.size());
 					p.stripLengths.clear();
 					for (auto& s : p.strips)
